@@ -148,6 +148,17 @@ impl Deserializable for Context {
         // read options
         let options = ProofOptions::read_from(source)?;
 
+        // enforce the same limits as Context::new() so that a context read from untrusted bytes
+        // cannot make lde_domain_size() (trace length * blowup factor) overflow later on
+        let trace_length = trace_info.length();
+        if trace_length > u32::MAX as usize
+            || trace_length * options.blowup_factor() > u32::MAX as usize
+        {
+            return Err(DeserializationError::InvalidValue(
+                "trace length or LDE domain size too big".to_string(),
+            ));
+        }
+
         Ok(Context { trace_info, field_modulus_bytes, options })
     }
 }
